@@ -1,5 +1,6 @@
 import JediModel.Lemmas.Refs
 import JediModel.Lemmas.Rename
+import JediModel.Lemmas.RefsSound
 /-! # C05 — Rename rewrites exactly the references and preserves behaviour
 
 Two models meet here: `Tree` (what `rename` does to the text once the reference set is known)
@@ -82,6 +83,27 @@ theorem refs_contains_start (p : Prog) (u : Nat) (o : Occ) (ho : p.occs[u]? = so
     exact scan_found_mono p _ _ d hd
   exact ⟨hd u (start_mem_definingNames p u o ho), hd⟩
 
+/-- **Every reported reference denotes the variable under the cursor** (so rename never touches
+another variable), for identifiers satisfying `NameOk`: no `global`/`nonlocal` declaration of the
+identifier anywhere, every use of it covered by the C03 chain theorem and — in a class body that
+binds it — preceded by such a binding.  FULL statement (no `NameOk`) is false of the unchanged
+code: witnesses below, each excluded by exactly one clause. -/
+theorem refs_sound_partial (p : Prog) (hwf : WF p = true) (u : Nat) (o : Occ)
+    (ho : p.occs[u]? = some o) (hok : NameOk p o.name) :
+    ∀ r ∈ refs p u, varOf p r = varOf p u := by
+  unfold refs
+  rw [ho]
+  simp only
+  have := scan_sound p hwf o.name (varOf p u) hok (occurrencesOf p o.name)
+    { found := definingNames p u, nonMatching := [] }
+    (by
+      intro o' ho'
+      unfold occurrencesOf at ho'
+      obtain ⟨oo, hoo, hf⟩ := (mem_indices p _ o').mp ho'
+      exact ⟨oo, hoo, by simpa using hf⟩)
+    ⟨definingNames_sameVar p hwf u o ho hok, by intro kg hkg; simp at hkg⟩
+  exact this.1
+
 /-! ## Counter-witnesses: the reference set is *not* the set of occurrences of one variable
 FULL statement "refs p u = {o | name o = name u ∧ varOf p o = varOf p u}", with its corollaries
 partition and behaviour preservation, is false of the unchanged code.  Both witnesses are
@@ -147,7 +169,8 @@ occurrences, those of the parameter `b` its two -/
 example : let p : Prog := { scopes := [⟨module, 0⟩, ⟨function, 0⟩],
                             occs := [⟨0, bind, 0, 0⟩, ⟨1, defName, 0, 1⟩, ⟨2, param, 1, 2⟩,
                                      ⟨0, use, 1, 3⟩, ⟨2, use, 1, 4⟩] }
-    WF p = true ∧ refs p 0 = [0, 3] ∧ refs p 3 = [3, 0] ∧ refs p 4 = [4, 2] := by decide
+    WF p = true ∧ refs p 0 = [0, 3] ∧ refs p 3 = [3, 0] ∧ refs p 4 = [4, 2] ∧
+    UseOk p 3 = true ∧ UseOk p 4 = true := by decide
 
 /-- a two-leaf tree `x = x` renamed at both leaves -/
 example : render (renameMap [1, 3] "yy".toList
